@@ -36,11 +36,14 @@ func importPub(t *rapid.T, p ref.Pt, route string) *secec.PublicKey {
 	case "spki-compressed":
 		k, err = secec.ParseASN1PublicKey(append(append([]byte(nil), ref.SPKIPrefixCompressed...), p.Compressed()...))
 	case "point":
-		k, err = secec.NewPublicKeyFromPoint(lib.Pt(p))
+		src := lib.Pt(p)
+		k, err = secec.NewPublicKeyFromPoint(src)
+		src.Identity() // the caller goes on using its point; the key must hold its own copy
 	case "point-derived":
 		q := secp256k1.NewIdentityPoint().Add(lib.Pt(p), secp256k1.NewGeneratorPoint())
 		q.Subtract(q, secp256k1.NewGeneratorPoint())
 		k, err = secec.NewPublicKeyFromPoint(q)
+		q.Double(q)
 	}
 	if err != nil || k == nil {
 		t.Fatalf("public key import via %s failed for valid point %v: %v", route, p, err)
@@ -71,9 +74,21 @@ func checkPubKey(t *rapid.T, k *secec.PublicKey, p ref.Pt, what string) {
 	}
 }
 
+// privScalar draws a private scalar: boundary-biased, or steered so that the
+// GLV decomposition inside ScalarMult hits its rare corners (extreme halves,
+// rounding carry across a limb).
+func privScalar(t *rapid.T, label string) *big.Int {
+	if rapid.IntRange(0, 2).Draw(t, label+"-glv") == 0 {
+		if v, _ := gen.GLVScalar(t, label+"-glv-s"); v.Sign() != 0 {
+			return v
+		}
+	}
+	return gen.NonZero256(t, ref.N, label)
+}
+
 func propECDH(t *rapid.T) {
-	a := gen.NonZero256(t, ref.N, "a")
-	b := gen.NonZero256(t, ref.N, "b")
+	a := privScalar(t, "a")
+	b := privScalar(t, "b")
 	if rapid.IntRange(0, 5).Draw(t, "related") == 0 {
 		switch rapid.IntRange(0, 2).Draw(t, "how") {
 		case 0:
